@@ -590,6 +590,28 @@ pub fn get(id: &str, thorough: bool) -> Option<PropDef> {
                 mode: Mode::Single,
             }
         }
+        "C19" => {
+            let mut p = Profile::base("C19-runtime");
+            p.w_how = [10, 3, 8, 3, 1];
+            p.w_msg_out = [10, 6, 1];
+            p.peer = Peer::Dag;
+            p.actors = (1, 3);
+            p.p_peer = (1, 4);
+            p.w_kill = 1;
+            PropDef {
+                id: "C19",
+                profiles: vec![p],
+                monitor: m2::c19_runtime,
+                labels: m2::c19_labels,
+                nontrivial: &["handled_tell_and_ask"],
+                rule: "two parts. (1) generated programs: actor shape (named/tuple/unit struct, enum) x generics (none, inline bounds, where clause, two parameters) x derive(Actor)/manual x 1-4 handlers, each = attribute {#[handler], #[handler()], (result), (no_log)} x return spelling {none, (), u32, String, tuple, Option, Vec, generic T, Result, std::result::Result, anyhow::Result, alias of Result} x message kind (named, tuple, generic wrapper, destructuring pattern, unit) x third-parameter spelling x co-existing non-handler methods, compiled offline against the real macros together with 11 kinds of negative programs; distinct by descriptor hash; a program is non-trivial iff it has >=2 handlers of different (attribute, return-spelling) classes. (2) runtime half in the simulator: manual Message impls recording every on_tell_result call; non-trivial iff both a tell and an ask were handled",
+                quick_cases: 3000,
+                thorough_cases: 30000,
+                tape_len: 500,
+                log_polls: false,
+                mode: Mode::Single,
+            }
+        }
         "C17" => {
             let mut p = Profile::base("C17");
             p.actors = (1, 2);
